@@ -4,6 +4,7 @@ import (
 	"fmt"
 	"github.com/metrico/qryn/reader/logql/logql_transpiler_v2/shared"
 	sql "github.com/metrico/qryn/reader/utils/sql_select"
+	"strconv"
 	"strings"
 )
 
@@ -14,8 +15,13 @@ func (p *ParserPlanner) json(ctx *shared.PlannerContext) (sql.ISelect, error) {
 	}
 
 	jsonPaths := make([][]string, len(p.Vals))
+	typedPaths := make([][]any, len(p.Vals))
 	for i, val := range p.Vals {
 		jsonPaths[i], err = shared.JsonPathParamToArray(val)
+		if err != nil {
+			return nil, err
+		}
+		typedPaths[i], err = shared.JsonPathParamToTypedArray(val)
 		if err != nil {
 			return nil, err
 		}
@@ -28,6 +34,7 @@ func (p *ParserPlanner) json(ctx *shared.PlannerContext) (sql.ISelect, error) {
 				col:    sql.NewRawObject("string"),
 				labels: p.labels,
 				paths:  jsonPaths,
+				typed:  typedPaths,
 			},
 		}, nil
 	})
@@ -39,6 +46,7 @@ type sqlJsonParser struct {
 	col    sql.SQLObject
 	labels []string
 	paths  [][]string
+	typed  [][]any
 }
 
 func (s *sqlJsonParser) String(ctx *sql.Ctx, opts ...int) (string, error) {
@@ -51,7 +59,7 @@ func (s *sqlJsonParser) String(ctx *sql.Ctx, opts ...int) (string, error) {
 			return "", err
 		}
 
-		strVals[i], err = s.path2Sql(s.paths[i], ctx, opts...)
+		strVals[i], err = s.path2Sql(s.paths[i], s.typed[i], ctx, opts...)
 		if err != nil {
 			return "", err
 		}
@@ -62,7 +70,7 @@ func (s *sqlJsonParser) String(ctx *sql.Ctx, opts ...int) (string, error) {
 		strings.Join(strVals, ",")), nil
 }
 
-func (s *sqlJsonParser) path2Sql(path []string, ctx *sql.Ctx, opts ...int) (string, error) {
+func (s *sqlJsonParser) path2Sql(path []string, typed []any, ctx *sql.Ctx, opts ...int) (string, error) {
 	colName, err := s.col.String(ctx, opts...)
 	if err != nil {
 		return "", err
@@ -70,6 +78,12 @@ func (s *sqlJsonParser) path2Sql(path []string, ctx *sql.Ctx, opts ...int) (stri
 
 	res := make([]string, len(path))
 	for i, part := range path {
+		if n, isIdx := typed[i].(int); isIdx {
+			// an [n] part is an array index: ClickHouse takes a number for it, counted from 1; a string argument
+			// names an object key, so 'a','1' looked for a member called 1 and found nothing in an array
+			res[i] = strconv.Itoa(n + 1)
+			continue
+		}
 		var err error
 		res[i], err = (sql.NewStringVal(part)).String(ctx, opts...)
 		if err != nil {
